@@ -267,9 +267,12 @@ def prs_logging_summary(itp, motion, dt, periods, xi):
 
 @unit('C03', 'AccSignal.gen_response_spectrum', functions=['eqsig.single.AccSignal.gen_response_spectrum', 'eqsig.single.AccSignal.s_a',
                                                           'eqsig.single.AccSignal.s_v', 'eqsig.single.AccSignal.s_d'],
-      cases=[dict(ratio=r, lead_zero=z, how=h) for r in (1, 2, 4, 8) for z in (False, True) for h in ('explicit',)] +
-            [dict(ratio=4, lead_zero=False, how='lazy')], modes=('unbounded',), budget_ms=30000)
-def gen_response_spectrum(V, ratio, lead_zero, how):
+      cases=[dict(ratio=r, lead_zero=z, how=h, pre='fresh') for r in (1, 2, 4, 8) for z in (False, True) for h in ('explicit',)] +
+            [dict(ratio=4, lead_zero=False, how='lazy', pre='fresh')] +
+            [dict(ratio=r, lead_zero=False, how='explicit', pre='after-an-earlier-request') for r in (2, 8)], modes=('unbounded',), budget_ms=30000)
+def gen_response_spectrum(V, ratio, lead_zero, how, pre):
+    """pre='after-an-earlier-request': the object has already produced a spectrum for OTHER periods, damping and min_dt_ratio (any
+    of them: coarser or finer integration step); the new request must be integrated at ITS step."""
     st = {}
 
     def setup():
@@ -287,17 +290,28 @@ def gen_response_spectrum(V, ratio, lead_zero, how):
         xi = V.real('xi')
         V.assume(xi >= 0, xi < 1)
         st.update(n=n, x=x, dt=dt, rt=rt, P=P, asig=asig, xi=xi)
+        if pre != 'fresh':
+            rt0 = V.array('rt0', 2, origin='param')
+            xi0 = V.real('xi0')
+            V.assume(rt0[0] > 0, rt0[1] > 0, xi0 >= 0, xi0 < 1)
+            st.update(rt0=rt0, xi0=xi0, ratio0=4 if ratio != 4 else 2)       # the earlier request may or may not have needed interpolation
         return ((asig,), {})
 
     def op(itp, asig):
-        if how == 'explicit':
+        st['skip'] = 0
+        if pre != 'fresh':
+            itp.call(itp.get_attr(asig, 'gen_response_spectrum'), [], dict(response_times=st['rt0'], xi=st['xi0'], min_dt_ratio=st['ratio0']))
+            st['skip'] = len(T.ctx().cache.get('prs-calls', []))
+            itp.call(itp.get_attr(asig, 'gen_response_spectrum'), [], dict(response_times=st['rt'], xi=st['xi'], min_dt_ratio=ratio))
+        elif how == 'explicit':
             itp.call(itp.get_attr(asig, 'gen_response_spectrum'), [], dict(xi=st['xi'], min_dt_ratio=ratio))
         return itp.get_attr(asig, 's_a'), itp.get_attr(asig, 's_v'), itp.get_attr(asig, 's_d')
     for out in V.run(op, setup):
+        out.replay_info = dict(module='spectra', entry='gen_response_spectrum', pre=pre, ratio=ratio, lead_zero=lead_zero)
         if not out.no_raise():
             continue
         n, x, dt, rt, P = st['n'], st['x'], st['dt'], st['rt'], st['P']
-        calls = out.cx.cache.get('prs-calls', [])
+        calls = out.cx.cache.get('prs-calls', [])[st['skip']:]
         out.prove('spectra-computed-exactly-once', len(calls) == 1)
         if len(calls) != 1:
             continue
